@@ -146,8 +146,14 @@ fn client_disposed(mon: &crate::wire::MonitorRef, delivery_id: u32) -> bool {
 
 /// true if a recv future was dropped between the two observation points around the auto-accept
 /// disposition (hook H4): it had taken the delivery off the link's channel
+///
+/// ... and, precisely, while that disposition (or the credit refresh that follows it) was waiting
+/// for room in the link -> session channel (hook H6: the channel had no free slot when the send
+/// began and the send has not completed). A recv future dropped inside the bracket while nothing
+/// was waiting for room is not the recorded finding.
 fn dropped_in_auto_accept() -> bool {
     sim::sched_point_count("observe.receiver.auto_accept.begin") > sim::sched_point_count("observe.receiver.auto_accept.end")
+        && sim::sched_point_count("observe.receiver.dispose.no_room.begin") > sim::sched_point_count("observe.receiver.dispose.no_room.end")
 }
 
 /// Signature of the recorded finding: the recv future was dropped while the auto-accept
@@ -162,19 +168,26 @@ const SIG_CREDIT_TAKEN: &str = "send-dropped-after-credit-taken";
 /// ... and of its link-level-splitting facet: dropped between the transfers of one delivery
 const SIG_PARTIAL: &str = "send-dropped-between-link-level-transfers";
 
-fn send_counters() -> (u64, u64, u64) {
+fn send_counters() -> (u64, u64, u64, u64) {
     (
         sim::sched_point_count("observe.sender.credit_taken"),
         sim::sched_point_count("observe.sender.first_transfer_queued"),
         sim::sched_point_count("observe.sender.delivery_queued"),
+        sim::sched_point_count("observe.sender.transfer.no_room"),
     )
 }
 
 /// What a dropped send future had done (one send is in flight at a time, so the difference of
-/// the counters before the send and after the drop is exact)
-fn classify_send_drop(before: (u64, u64, u64), after: (u64, u64, u64)) -> &'static str {
+/// the counters before the send and after the drop is exact). Both recorded findings are about a
+/// send that is dropped *while one of its transfers waits for room in the link -> session channel*
+/// (hook H7: the channel had no free slot when that transfer was handed over, and the hand-over
+/// has not completed); a send dropped at any other point after it took credit is not covered by them.
+fn classify_send_drop(before: (u64, u64, u64, u64), after: (u64, u64, u64, u64)) -> &'static str {
+    let waiting_for_room = after.3 > before.3 && sim::sched_point_last("observe.sender.transfer.no_room") > sim::sched_point_last("observe.sender.transfer_queued");
     if after.0 == before.0 || after.2 > before.2 {
         "" // no credit taken yet, or the delivery was queued completely
+    } else if !waiting_for_room {
+        ""
     } else if after.1 > before.1 {
         SIG_PARTIAL
     } else {
